@@ -16,7 +16,7 @@ from ..corpus import b64, unb64
 
 PROP = "C18"
 LEVEL = "exploration"
-COUNTS = {"quick": 700, "thorough": 16000}
+COUNTS = {"quick": 1500, "thorough": 30000}
 WALL = {"quick": 170, "thorough": 3300}
 RULE = (
     "scenario = one invocation constructed to land in a known category (success / no files / command-line error / fixed / "
